@@ -156,6 +156,11 @@ func runC16(c *core.Ctx) {
 			kl = c16KeyLens[rng.Intn(len(c16KeyLens))]
 			vl = valLens[rng.Intn(len(valLens))]
 		}
+		if c.Case%16 == 3 && combo == 1 {
+			vl = 40 << 20 // far larger than anything written before: the file grows by tens of MiB in one write
+			kl = 7
+			c.Stat("values_40MiB", 1)
+		}
 		if c.Thorough() && c.Case%160 == 7 && combo == 0 {
 			vl = 512 << 20 // exactly the limit
 			kl = 5
@@ -172,7 +177,7 @@ func runC16(c *core.Ctx) {
 		case "second_overflows":
 			cfg.MaxSeg = 512 + 2*recSize - 1
 		}
-		if vl >= 512<<20 {
+		if vl >= 32<<20 {
 			cfg.MaxSeg = 0
 			mode = "default"
 		}
@@ -221,6 +226,11 @@ func runC16(c *core.Ctx) {
 					return false
 				}
 				want[string(k)] = v
+				// read it back at once, before anything else is written
+				if got, err := db.Get(k); err != nil || !bytes.Equal(got, v) || got == nil {
+					fail("roundtrip-live", fmt.Sprintf("Get right after Put returned %d bytes (nil=%v), err %v; %d bytes were written", len(got), got == nil, err, len(v)))
+					return false
+				}
 				return true
 			}
 			// an empty key with an empty value first (its record header is six zero bytes), then the records under test
